@@ -1,32 +1,55 @@
 """C08 - half conversions, arithmetic and comparisons are exactly IEEE 754 binary16.
 
  1. TLC checks the oracle itself: specs/HalfLaws.tla (INVARIANT Laws08) over all 65 536 halves.
- 2. harness/half/driver.cpp is built twice (-mno-f16c, -mf16c) from the current xtl headers and evaluates the
-    real operators on the operand grids; both recordings are compared byte for byte.
- 3. TLC (specs/HalfCheck.tla) visits every recorded evaluation as a state and checks it against
-    specs/Half.tla (NaN results compared as "is a NaN").  The counterexample is the failing operand tuple;
-    it is re-executed alone and re-validated before it is reported.
+ 2. A table of static_asserts (vlib/halfgrid.py, probe_signatures) states the signatures of the operations the check calls;
+    a row that fails is a violation of its own, before the driver is built.
+ 3. harness/half/driver.cpp is built from the current xtl headers in several configurations (g++ -mno-f16c, g++ -mf16c,
+    clang++ -O2 -DNDEBUG -march=native; thorough: also g++ -O0 and g++ -O2 -std=c++17) and evaluates the real operators on the
+    operand grids; the recordings are compared byte for byte.
+ 4. TLC enumerates, from the case analysis of Half.tla itself (specs/HalfCases.tla, VIEW = case key), one witness operand pair
+    per case of + * / and the comparisons; the witnesses are executed too.
+ 5. TLC (specs/HalfCheck.tla) visits every recorded evaluation as a state and checks it against specs/Half.tla (NaN results
+    compared as "is a NaN").  The counterexample is the failing operand tuple; it is re-executed alone - same build, same
+    rounding direction - and re-validated before it is reported.
 """
 import os, threading
 from vlib import core, halfgrid as hg
 from vlib.core import MachineryError
 
 UN08 = ["neg", "pos", "fabs", "abs", "sqrt", "isnan", "isinf", "isfinite", "isnormal", "signbit", "fpclassify",
-        "h2f", "h2d", "h2ld", "h2i", "hash", "roundtrip", "incdec"]
+        "h2i", "hash", "roundtrip", "incdec", "stream"]
+# widening a signalling NaN keeps the signalling bit in the software path and quiets it in the F16C path (NaN payloads are not
+# specified): these tables differ between the builds at NaN operands and are validated once per differing build - kept apart
+UN08_WIDEN = ["h2f", "h2d", "h2ld"]
+# what is evaluated once more under a directed rounding direction of the calling thread (everything that is specified
+# independently of it; "stream" goes through printf/strtod, which follow the direction by design, and is left out)
+UN08_RM = ["sqrt", "h2i", "roundtrip", "incdec", "hash", "fpclassify"]
 VARIANTS = ["add_eq", "sub_eq", "mul_eq", "div_eq", "add_f", "sub_f", "mul_f", "div_f"]
+ARITH = ("add", "sub", "mul", "div")
+N_LIMITS, N_LITERALS = 40, 47
 
 
-def make_jobs(ctx):
+def make_jobs(ctx, counts):
     q = ctx.quick
     S = hg.grid(ctx.seed, 544 if q else 2048)
     jobs = []
+    # operand pairs chosen by the oracle's case analysis (TLC enumerates them when the job starts)
+    counts["cases"] = {}
+    for op in ("add", "mul", "div", "cmp"):
+        jobs.append(hg.case_job(ctx, op, counts["cases"], "C08"))
     # unary operations and conversions from half: all 2^16 inputs
     half = len(UN08) // 2
     jobs.append(hg.Job("un-a", [hg.hdr(S=[0])] + hg.unary_rows(UN08[:half])))
     jobs.append(hg.Job("un-b", [hg.hdr(S=[0])] + hg.unary_rows(UN08[half:])))
+    jobs.append(hg.Job("un-widen", [hg.hdr(S=[0])] + hg.unary_rows(UN08_WIDEN)))
+    # numeric_limits<half>, HUGE_VALH, HLF_ROUNDS, nanh, the _h literals
+    jobs.append(hg.Job("consts", [hg.hdr(S=[0]), {"k": "lim", "f": "limits", "t": list(range(N_LIMITS))},
+                                  {"k": "lit", "f": "lit", "t": list(range(N_LITERALS))}]))
+    # the special operands among themselves, every binary operation, a table of its own
+    jobs.append(hg.specials_job("specials", list(ARITH) + ["cmp"] + VARIANTS))
     # + - * / on S x S
     rows_per_job = len(S) if q else 512
-    for op in ("add", "sub", "mul", "div"):
+    for op in ARITH:
         for i, A in enumerate(hg.chunks(S, rows_per_job)):
             jobs.append(hg.Job("%s-%d" % (op, i), [hg.hdr(S=S)] + hg.bin_rows(op, A)))
     # comparisons, copysign, hash of equal values; compound assignment and mixed half/float operators on a row subset
@@ -44,21 +67,10 @@ def make_jobs(ctx):
     frow = [{"k": "f2h", "f": "f2h", "hi": [v >> 16 for v in c], "lo": [v & 0xFFFF for v in c]} for c in hg.chunks(fl, per)]
     for i, rs in enumerate(hg.chunks(frow, max(1, (len(frow) + 3) // 4))):
         jobs.append(hg.Job("f2h-%d" % i, [hg.hdr(S=[0])] + rs))
-    # the same conversion, and half arithmetic, while the calling thread's rounding direction is upward / downward /
-    # toward zero: the results are specified as round-to-nearest-even regardless (the F16C path must not inherit MXCSR)
-    step = 6 if q else 2
-    rmrows = []
-    for n, r0 in enumerate(frow[::step]):
-        r1 = dict(r0); r1["rm"] = 1 + n % 3
-        rmrows.append(r1)
-    jobs.append(hg.Job("f2h-rm", [hg.hdr(S=[0])] + rmrows))
-    rsub = S[::16] if q else S[::8]
-    rows = [hg.hdr(S=S)]
-    for n, op in enumerate(("add", "sub", "mul", "div")):
-        for m, r0 in enumerate(hg.bin_rows(op, rsub)):
-            r1 = dict(r0); r1["rm"] = 1 + (n + m) % 3
-            rows.append(r1)
-    jobs.append(hg.Job("bin-rm", rows))
+    # the same floats through operator>> (their exact decimal expansion as text); finite ones: the C++ library does not read "inf"/"nan"
+    fin = [v for v in fl if (v >> 23) & 0xFF != 0xFF][::(3 if q else 1)]
+    srow = [{"k": "sf2h", "f": "sf2h", "hi": [v >> 16 for v in c], "lo": [v & 0xFFFF for v in c]} for c in hg.chunks(fin, per)]
+    jobs.append(hg.Job("sf2h", [hg.hdr(S=[0])] + srow))
     # double -> half, integer -> half
     db = hg.double_inputs(ctx.seed, q)
     drow = []
@@ -69,15 +81,34 @@ def make_jobs(ctx):
     irow = [{"k": "i2h", "f": "i2h", "x": c} for c in hg.chunks(iv, per)]
     jobs.append(hg.Job("d2h", [hg.hdr(S=[0])] + drow))
     jobs.append(hg.Job("i2h", [hg.hdr(S=[0])] + irow))
-    jobs.append(hg.Job("imin", [hg.hdr(S=[0]), {"k": "imin", "f": "imin", "t": [0, 1, 2, 3, 4]}], hang_timeout=hg.HANG_TIMEOUT))
+    jobs.append(hg.Job("imin", [hg.hdr(S=[0]), {"k": "imin", "f": "imin", "t": [0, 1, 2, 3, 4]}]))
     # fma on seeded triples
     nt = 150000 if q else 1000000
     X, Y, Z = hg.fma_triples(ctx.seed, nt, S)
     trow = [{"k": "fma", "f": "fma", "x": X[i:i + per], "y": Y[i:i + per], "z": Z[i:i + per]} for i in range(0, nt, per)]
     for i, rs in enumerate(hg.chunks(trow, max(1, (len(trow) + (1 if q else 7)) // (2 if q else 8)))):
         jobs.append(hg.Job("fma-%d" % i, [hg.hdr(S=[0])] + rs))
-    counts = {"grid": len(S), "floats": len(fl), "doubles": len(db), "ints": len(iv), "fma_triples": nt}
-    return jobs, counts, S
+    # ---- the calling thread's rounding direction is upward / downward / toward zero: conversions, half arithmetic, sqrt, fma and
+    # comparisons are specified as before (round to nearest even; the F16C path must not inherit MXCSR, nothing may go through
+    # hardware float arithmetic).  Mixed half/float forms are left out.
+    sd = ctx.seed
+    jobs.append(hg.Job("f2h-rm", [hg.hdr(S=[0])] + hg.with_rm(frow[(sd % 2)::(6 if q else 2)], sd)))
+    rsub = S[(sd % 4)::(16 if q else 8)] + hg.REQUIRED
+    rows = [hg.hdr(S=S)]
+    for n, op in enumerate(ARITH + ("cmp",)):
+        rows += hg.with_rm(hg.bin_rows(op, rsub), sd + n)
+    jobs.append(hg.Job("bin-rm", rows))
+    jobs.append(hg.Job("un-rm", [hg.hdr(S=[0])] + hg.with_rm(hg.unary_rows(UN08_RM)[(sd % 2)::(2 if q else 1)], sd)))
+    jobs.append(hg.Job("un-widen-rm", [hg.hdr(S=[0])] + hg.with_rm(hg.unary_rows(UN08_WIDEN)[(sd % 2)::(2 if q else 1)], sd)))
+    jobs.append(hg.Job("conv-rm", [hg.hdr(S=[0])] + hg.with_rm(drow[::(3 if q else 1)] + irow[::(3 if q else 1)], sd + 1)))
+    jobs.append(hg.Job("fma-rm", [hg.hdr(S=[0])] + hg.with_rm(trow[(sd % 3)::(8 if q else 4)], sd + 2)))
+    # thorough: how many of the cases does the structured grid S x S reach on its own (a TLC count)
+    if not q:
+        counts["grid_cases"] = {}
+        for op in ("add", "mul", "div", "cmp"):
+            jobs.append(hg.grid_case_count_job(ctx, op, S, counts["grid_cases"]))
+    counts.update({"grid": len(S), "floats": len(fl), "floats_via_operator>>": len(fin), "doubles": len(db), "ints": len(iv), "fma_triples": nt})
+    return jobs, S
 
 
 def replay(ctx, path):
@@ -88,6 +119,19 @@ def selftest(ctx):
     return hg.selftest(ctx, "C08")
 
 
+ASSUMPTIONS = [
+    "HALF_ROUND_STYLE = 1 (round to nearest, the default and what the property states); half_cast with an explicit rounding mode, "
+    "HALF_ERRHANDLING_* (exception flags / errno / exceptions) and HALF_ARITHMETIC_TYPE are not exercised",
+    "NaN results are compared as 'is a NaN' (payload and sign of a produced NaN are not specified by IEEE 754)",
+    "not all 2^32 operand pairs / float patterns: binary operators are explored on the structured grid, on REQUIRED x REQUIRED and on "
+    "one witness pair per case of the oracle's case analysis reached by a bounded search",
+    "the F16C builds are executed on this CPU's F16C unit",
+    "under a directed rounding direction of the calling thread only operations specified independently of it are evaluated "
+    "(mixed half/float operators and stream I/O are evaluated in the default direction only)",
+    "operator<< is read back with strtof at precision 9; operator>> is given the exact decimal expansion of finite floats "
+    "(any correctly rounding text-to-binary conversion yields that float)"]
+
+
 def run(ctx):
     q = ctx.quick
     # ---- 1. the oracle's own laws, concurrently with everything else
@@ -95,47 +139,70 @@ def run(ctx):
 
     def laws():
         try:
-            law["r"] = hg.run_laws(ctx, "HalfLaws08_quick.cfg" if q else "HalfLaws08_thorough.cfg", "laws08", workers=4 if q else 6)
+            law["r"] = hg.run_laws(ctx, "HalfLaws08_quick.cfg" if q else "HalfLaws08_thorough.cfg", "laws08", workers=min(core.NCPU, 4 if q else 6))
         except Exception as e:      # re-raised in the main thread
             law["err"] = e
     th = threading.Thread(target=laws)
+    if os.environ.get("VERIF_HALF_SKIP_LAWS"):      # development aid (mutation experiments on a loaded machine)
+        ctx.notes["laws_skipped"] = "PARTIAL RUN: VERIF_HALF_SKIP_LAWS set, the oracle's law set was not re-checked in this run"
+        th = threading.Thread(target=lambda: None)
     th.start()
 
-    # ---- 2. harness, both builds
-    sw, hw = hg.build_drivers(ctx)
-    jobs, counts, S = make_jobs(ctx)
-    ctx.log("grid |S|=%d, %d floats, %d doubles, %d ints, %d fma triples; %d table jobs" % (
-        counts["grid"], counts["floats"], counts["doubles"], counts["ints"], counts["fma_triples"], len(jobs)))
+    # ---- 2. signature probe and harness builds
+    try:
+        drivers = hg.build_drivers(ctx, "C08")
+    except Exception:
+        th.join()
+        raise
+    if drivers is None:
+        th.join()
+        return core.finish(ctx, "exploration", rule="signature probe only: the driver does not build against this tree", assumptions=ASSUMPTIONS)
+    counts = {}
+    jobs, S = make_jobs(ctx, counts)
+    ctx.log("grid |S|=%d, %d floats, %d doubles, %d ints, %d fma triples; %d table jobs; builds: %s" % (
+        counts["grid"], counts["floats"], counts["doubles"], counts["ints"], counts["fma_triples"], len(jobs), ", ".join(t for t, _, _ in drivers.items)))
 
     # ---- 3. record and validate
-    summaries = hg.validate_jobs(ctx, jobs, sw, hw, parallel=6 if q else 7, workers=2, what="C08")
+    summaries = hg.validate_jobs(ctx, jobs, drivers, parallel=6 if q else 7, workers=2, what="C08")
     th.join()
     if "err" in law:
         raise law["err"]
-    nident = sum(1 for s in summaries if s["f16c_identical"])
-    ctx.notes["tables"] = [{k: s[k] for k in ("job", "evaluations", "f16c_identical")} for s in summaries]
-    ctx.notes["f16c"] = "%d of %d recordings are byte-identical between the -mf16c and -mno-f16c builds; differing ones are validated separately" % (nident, len(summaries))
+    nident = sum(1 for s in summaries if s["identical"])
+    ctx.notes["tables"] = [{k: s[k] for k in ("job", "evaluations", "identical", "validated_tables")} for s in summaries]
+    ctx.notes["builds"] = "%d of %d recordings are byte-identical between all driver builds; differing ones are validated separately" % (nident, len(summaries))
     ctx.notes["inputs"] = counts
-    diffs = {s["job"]: s["f16c_diff"] for s in summaries if s.get("f16c_diff")}
+    diffs = {s["job"]: s["build_diff"] for s in summaries if s.get("build_diff")}
     if diffs:
-        ctx.notes["f16c_differences_at_nan_operands"] = diffs
+        ctx.notes["build_differences_at_nan_operands"] = diffs
         ctx.log("recordings differ between the builds only at NaN operands (NaN payload/quiet bit): %s" % diffs)
-    ctx.cov["distinct_nontrivial"] = ctx.cov["evaluations"]
-    ctx.sample({"job": jobs[2].name, "request": [str(r)[:160] for r in jobs[2].rows[:3]]})
+    ncases = sum(c["cases"] for c in counts.get("cases", {}).values())
+    ctx.cov["distinct_nontrivial"] = ncases
+    ctx.notes["distinct_nontrivial_is"] = ("the number of distinct cases of the oracle's case analysis (specs/HalfCases.tla: operand classes x alignment x "
+                                           "carry/cancellation x dropped bits x below/tie/above half x sticky x result class) that TLC reached in the bounded "
+                                           "search and for which a witness pair was executed and validated: %s" % {k: v["cases"] for k, v in counts.get("cases", {}).items()})
+    ctx.sample({"job": jobs[4].name, "request": [str(r)[:160] for r in jobs[4].rows[:3]]})
     ctx.sample({"grid_head": S[:24]})
-    ctx.log("validated %d evaluations in %d tables (%d byte-identical with/without F16C)" % (ctx.cov["evaluations"], len(summaries), nident))
+    ctx.log("validated %d evaluations in %d tables (%d byte-identical across the %d builds); %d cases of the oracle's case analysis witnessed %s" % (
+        ctx.cov["evaluations"], len(summaries), nident, len(drivers.items), ncases, {k: v["cases"] for k, v in counts.get("cases", {}).items()}))
+    if counts.get("grid_cases"):
+        ctx.log("cases reached by the structured grid S x S alone: %s" % {k: v["cases"] for k, v in counts["grid_cases"].items()})
     return core.finish(
         ctx, "exploration",
         rule="TLA+ oracle Half.tla evaluated by TLC on every recorded evaluation (one state each). Exhaustive over all 65 536 halves for "
-             "every unary operation, classification, half->float/double/long double/int conversion, sqrt, ++/--, hash; float->half on every "
-             "exactly representable value, the rounding midpoints and their float neighbours, float subnormals, the overflow threshold, NaNs "
-             "and seeded random floats (%d floats); double->half (%d) and int->half (%d) likewise; + - * / (also compound and mixed half/float "
-             "forms), the six comparison operators, isgreater..isunordered, copysign and hash-equality on the grid S x S with |S|=%d "
-             "(every exponent x 8 boundary fractions x both signs, zeros, subnormals, infinities, NaNs, seeded random halves); fma on %d seeded "
-             "triples incl. cancellation and sticky cases. Both the -mf16c and the -mno-f16c build are recorded." % (
-                 counts["floats"], counts["doubles"], counts["ints"], counts["grid"], counts["fma_triples"]),
-        assumptions=["default rounding mode only (HALF_ROUND_STYLE = 1); exception flags are not observed",
-                     "NaN results are compared as 'is a NaN' (payload and sign of a produced NaN are not specified by IEEE 754)",
-                     "not all 2^32 operand pairs / float patterns: binary operators are explored on the structured grid only",
-                     "the F16C build is executed on this CPU's F16C unit"],
+             "every unary operation, classification, half->float/double/long double/int conversion, sqrt, ++/--, hash, operator<< / >> round trip; "
+             "float->half on every exactly representable value, the rounding midpoints and their float neighbours, float subnormals, the overflow "
+             "threshold, NaNs and seeded random floats (%d floats; %d of them also as text through operator>>); double->half (%d) and int->half (%d) "
+             "likewise; + - * / (also compound and mixed half/float forms), the six comparison operators, isgreater..isunordered, copysign and "
+             "hash-equality on the grid S x S with |S|=%d (28 required special operands, every exponent x 8 boundary fractions x both signs, seeded "
+             "random halves), on the special operands among themselves, and on one witness pair per case of the oracle's own case analysis "
+             "(HalfCases.tla, enumerated by TLC: %d cases); fma on %d seeded triples incl. cancellation and sticky cases; numeric_limits<half>, "
+             "HUGE_VALH, HLF_ROUNDS, nanh and %d _h literals against the parameters Half.tla derives from the encoding. Conversions, arithmetic, "
+             "sqrt, fma, comparisons are evaluated a second time under upward / downward / toward-zero rounding of the calling thread. "
+             "Driver builds recorded and compared: %s. distinct_nontrivial is the number of distinct cases of the case analysis (HalfCases.tla key: "
+             "operand classes, alignment distance, carry / cancellation, number of dropped bits, dropped part below / tie-even / tie-odd / above half "
+             "with or without sticky, round-up into the next binade, result class) for which TLC found a witness pair in its bounded search; each "
+             "witness was executed." % (
+                 counts["floats"], counts["floats_via_operator>>"], counts["doubles"], counts["ints"], counts["grid"], ncases, counts["fma_triples"],
+                 N_LITERALS, "; ".join(d for _, _, d in drivers.items)),
+        assumptions=ASSUMPTIONS,
         exhaustive=False)
